@@ -251,14 +251,24 @@ class Runnable(UsesState, HasLabel, HasRun, ABC):
                 **finish_run_kwargs,
             )
         else:
-            if isinstance(executor, ThreadPoolExecutor):
-                self.future = executor.submit(
-                    self._thread_pool_run, *on_run_args, **on_run_kwargs
-                )
-            else:
-                self.future = executor.submit(
-                    self.on_run, *on_run_args, **on_run_kwargs
-                )
+            try:
+                if isinstance(executor, ThreadPoolExecutor):
+                    self.future = executor.submit(
+                        self._thread_pool_run, *on_run_args, **on_run_kwargs
+                    )
+                else:
+                    self.future = executor.submit(
+                        self.on_run, *on_run_args, **on_run_kwargs
+                    )
+            except BaseException as e:
+                # The executor refused the job (it is shut down, broken, ...): nothing is
+                # out, so the status must not be left at "running"
+                self._run_exception(**run_exception_kwargs)
+                self._run_finally(**run_finally_kwargs)
+                if raise_run_exceptions:
+                    raise e
+                else:
+                    return None
             self.future.add_done_callback(
                 partial(
                     self._finish_run,
